@@ -396,6 +396,9 @@ pub fn main_with(
                         writeln!(out, "{} => BAD-OP-LINE", line).unwrap();
                     }
                 }
+                // one line per op, delivered at once: the parent sees which op a process that
+                // dies or never returns was working on
+                out.flush().unwrap();
             }
         }
         _ => {
